@@ -37,6 +37,8 @@ Section SimA.
         destruct (0 <=? z)%Z eqn:E2; cbn [exec].
         -- apply Z.leb_le in E2. rewrite Z2N.id by assumption. reflexivity.
         -- apply Z.leb_gt in E2. rewrite Z2N.id by lia. rewrite Z.opp_involutive. reflexivity.
+      * intros. destruct (z =? 0)%Z; [reflexivity|]. destruct (z =? 1)%Z; [reflexivity|].
+        destruct (0 <=? z)%Z; reflexivity.
     + destruct (pool_find (PInt z) pool 0) as [idx|] eqn:PF;
         [|cbn [comp] in H; rewrite IL, SI, PF in H; cbn [negb] in H; apply bind_inv in H;
           destruct H as (? & ? & ? & ? & _ & H & _); discriminate H].
@@ -56,7 +58,7 @@ Section SimA.
     - assert (X : P pool (EBool b)).
       { intros r st out st' c H W _.
         eapply (lit_case pool (EBool b) (if b then ISetTrue else ISetFalse) (VBool b)); eauto.
-        intros. destruct b; reflexivity. }
+        all: intros; destruct b; reflexivity. }
       split; [exact X|apply chain_leaf; auto].
     - split; [apply int_case|apply chain_leaf; auto; apply int_case].
     - split; [apply id_case|apply chain_leaf; auto; apply id_case].
